@@ -310,9 +310,21 @@ func reg2bin(beg, end int64, minShift, depth uint32) uint32 {
 
 // calculate the list of bins that may overlap with region [beg,end) (zero-based).
 func reg2bins(beg, end int64, minShift, depth uint32) []uint32 {
+	s := minShift + depth*nextBinShift
+	// As in htslib: there are no negative positions, nothing lies
+	// beyond the indexable range and an empty interval overlaps no
+	// bin. Without these limits the 32-bit loop bounds below wrap.
+	if beg < 0 {
+		beg = 0
+	}
+	if s < 63 && end > 1<<s {
+		end = 1 << s
+	}
+	if beg >= end {
+		return nil
+	}
 	end--
 	var list []uint32
-	s := minShift + depth*nextBinShift
 	for level, t := uint32(0), uint32(0); level <= depth; level++ {
 		b := t + uint32(beg>>s)
 		e := t + uint32(end>>s)
